@@ -90,6 +90,30 @@ theorem memWord_sub (big : Bool) (q : Nat) (bytes : List Nat) (h : ∀ b ∈ byt
   rw [List.getD_eq_getElem?_getD]
   simp [List.getElem?_map, List.getElem?_range hs]
 
+/-- Word `w` of the image, for every `w` (beyond the list: 0): the file's chunk `w - baseOff/(4q)` inside the file's words,
+    zero elsewhere — the placement depends on `baseOff` only through `baseOff / (4q)` (the FLOOR: an unaligned base is
+    silently rounded down). -/
+theorem memImage_getD (big : Bool) (q baseOff : Nat) (bytes : List Nat) (w : Nat) (hq : 0 < q) :
+    (memImage big q baseOff bytes).getD w 0 =
+      if baseOff / (4 * q) ≤ w ∧ w < baseOff / (4 * q) + (bytes.length + 4 * q - 1) / (4 * q)
+      then memWord big q bytes (w - baseOff / (4 * q)) else 0 := by
+  have hpos : 0 < 4 * q := by omega
+  rw [List.getD_eq_getElem?_getD]
+  simp only [memImage, List.getElem?_map]
+  by_cases hw : w < (baseOff + bytes.length + 4 * q - 1) / (4 * q)
+  · rw [List.getElem?_range hw]; simp
+  · rw [List.getElem?_eq_none (by simpa using Nat.le_of_not_lt hw)]
+    have hle : baseOff / (4 * q) + (bytes.length + 4 * q - 1) / (4 * q) ≤ (baseOff + bytes.length + 4 * q - 1) / (4 * q) := by
+      have h1 : baseOff / (4 * q) * (4 * q) ≤ baseOff := Nat.div_mul_le_self _ _
+      have h2 : (4 * q * (baseOff / (4 * q)) + (bytes.length + 4 * q - 1)) / (4 * q)
+          = baseOff / (4 * q) + (bytes.length + 4 * q - 1) / (4 * q) := Nat.mul_add_div hpos _ _
+      rw [← h2]
+      apply Nat.div_le_div_right
+      rw [Nat.mul_comm] at h1; omega
+    have : ¬ (baseOff / (4 * q) ≤ w ∧ w < baseOff / (4 * q) + (bytes.length + 4 * q - 1) / (4 * q)) := by omega
+    simp [this]
+
+
 /-- Length of the image: `ceil((base - offset + len)/(4q))` words. -/
 theorem memImage_length (big : Bool) (q baseOff : Nat) (bytes : List Nat) :
     (memImage big q baseOff bytes).length = (baseOff + bytes.length + 4 * q - 1) / (4 * q) := by
